@@ -152,7 +152,7 @@ def random_resize_kw(rng, maxdim=40, algs=None, filters=None, Q=4, pts=None):
     return dict(pt=pt, sw=sw, sh=sh, dw=dw, dh=dh, alg=alg, flt=flt, m=m, alpha=rng.random() < 0.5, box=box, Q=Q, cpu=rng.choice(CPUS))
 
 
-def runs_pixels(pt, npix, rng):
+def runs_pixels(pt, npix, rng, maxrun=12):
     """pixels of an alpha type in runs of 1..12: transparent black (all components 0), fully saturated (all components max),
     opaque with random colours, transparent with random colours, a random alpha with random colours, pure noise -- so that whole
     SIMD vectors that are all zero / all opaque / all transparent occur at every alignment next to mixed ones"""
@@ -164,7 +164,7 @@ def runs_pixels(pt, npix, rng):
     out, left, mode, a = [], 0, 0, 0
     for _ in range(npix):
         if left == 0:
-            left, mode = rng.randint(1, 12), rng.choice([0, 1, 2, 2, 3, 4, 5])
+            left, mode = rng.randint(1, maxrun), rng.choice([0, 1, 2, 2, 3, 4, 5])
             a = col()
         left -= 1
         if mode == 0:
